@@ -64,7 +64,8 @@ func runTest(fileName string, in io.Reader, out io.Writer, env *object.Env) int 
 	inner := object.NewEnclosedEnv(env)
 	inner.SetSourceFilePath(fileName)
 
-	exitCode := runSource(parser.NewReader(fp, fileName), in, out, env)
+	// NOTE: evaluate in the scope of this file (otherwise variables are shared with other test files)
+	exitCode := runSource(parser.NewReader(fp, fileName), in, out, inner)
 	return exitCode
 }
 
